@@ -44,7 +44,7 @@ for _pid, _chk in CHECKS.items():
         if ('dbg-asan' in _q or _q == ['rel-asan']) and _rn['harness'] not in ('reread', 'mt_private', 'huge'):
             # ... and 'rel-native': the library exactly as shipped (-O2 -DNDEBUG, no sanitizer instrumentation in the way of the
             # optimiser) under the same workload and the harness's own oracles; crashes are still seen as worker deaths
-            _extra = ['clang-uchar-asan'] + (['rel-native'] if 'rel-native' not in _q else [])
+            _extra = ['clang-uchar-asan'] + (['rel-native'] if 'rel-native' not in _q else []) + (['clang-msan'] if os.environ.get('VERIF_TRY_MSAN') else [])
             _rn['configs'] = {'quick': list(_q) + _extra, 'thorough': list(_rn['configs']['thorough']) + _extra}
             _mc = dict(_rn.get('max_cases', {}))
             if 'rel-asan' in _mc:
